@@ -4,7 +4,8 @@ concrete spellings (abbreviated / unabbreviated, white space, redundant parenthe
 URIS = ["urn:u1", "urn:u2"]
 LOCALS = ["a", "b", "c"]
 ATTRS = ["id", "x", "n"]
-TEXTS = ["t", "12", " 3 ", "x y", "é", "\U0001D4B3z", "1.5", "-2", "  ", "a&amp;b", "&lt;", "&#65;", "<![CDATA[c<d]]>", "&e1;"]
+TEXTS = ["t", "12", " 3 ", "x y", "é", "\U0001D4B3z", "1.5", "-2", "  ", "a&amp;b", "&lt;", "&#65;", "<![CDATA[c<d]]>", "&e1;",
+         "10\u00a0000", "\u3000x\u3000 y", "\u00a05\u00a0"]
 AXES = ["ancestor", "ancestor-or-self", "attribute", "child", "descendant", "descendant-or-self", "following",
         "following-sibling", "namespace", "parent", "preceding", "preceding-sibling", "self"]
 
